@@ -132,6 +132,8 @@ def mixed_case(draw, tier, ne_share=3, families=base.FAMILIES4, config_kw=None, 
     """General case, with ~ne_share/10 of the cases built so that non-emitting states are needed."""
     sz = gen.sizes(tier)
     ckw = dict(config_kw or {})
+    if not config_kw and not graph_kw and draw(st.sampled_from(range(30))) == 7:
+        return draw(gen.hashsquare_case(families=families))
     if ckw.get("ne") is not False and gen.chance(draw, 1):
         case = draw(gen.long_ne_case(families=families, width=ckw.get("width", "rand"), first_order=ckw.get("first_order", False)))
         case["gen"] = "long-ne"
